@@ -526,7 +526,7 @@ func runC20(c *Ctx) {
 	}
 	c20Bundled(c)
 	for _, kind := range []string{"gometrics", "datadog"} {
-		c.Explore(c20Lifecycle(kind, c.Pick(5, 6)), mc.Options{PreemptBound: 0})
+		c.Explore(c20Lifecycle(kind, c.Pick(6, 7)), mc.Options{PreemptBound: 0})
 		c.Explore(c20StopRace(kind), mc.Options{PreemptBound: pbStop(c)})
 	}
 	_ = limit.NoopLimitLogger{}
